@@ -69,3 +69,13 @@ def _hyper_npint_den(inp):
 def _hyp2f1_z1(inp):
     A, B, z = _hyper_split(inp)
     return z == 1 and len(A) == 2 and len(B) == 1
+
+
+@predicate("legendre_x_below_2pow_minus_2p_minus_30")
+def _legendre_returns_x(inp):
+    """legendre's early `return x` (mag(x) < -2*prec-10 at the internal precision prec = p + 10)"""
+    from fractions import Fraction
+    d = inp["driver_args"]
+    x = Fraction(d[-2], d[-1])
+    p = int(inp["prec"])
+    return 0 < abs(x) < Fraction(1, 1 << (2 * p + 30))
